@@ -507,6 +507,10 @@ class FuncRenderer:
                 return name
             if name in self.R.file_statics:
                 return name
+            if re.match(r'^[A-Za-z_]\w*$', name) and not name.startswith('_Z'):
+                # a file-scope static variable (no assembler name in the dump): the contract file must declare it
+                self.R.file_statics.add(name)
+                return name
             raise G2CError('unknown identifier %r in %s' % (tok, self.f.pretty))
         s = UIDTOK.sub(var, s)
         return s
@@ -625,10 +629,18 @@ def method_render(self):
         if l not in label_block:
             raise G2CError('unknown label %s in %s' % (l, f.pretty))
         return 'BB%d' % label_block[l]
+    lp_blocks = set()
+    for lab in eh.lp.values():
+        if lab in label_block:
+            lp_blocks.add(label_block[lab])
     for b in f.blocks:
         lines = []
         cur_loc = None
         stmts = list(b.stmts)
+        if b.id in lp_blocks:
+            # entering a landing pad: the exception is in flight, not propagating; cleanups and handlers run
+            # normally and 'resx' resumes the propagation
+            lines.append('  __g2c_landing_pad();')
         # join if/else
         joined = []
         k = 0
@@ -965,7 +977,7 @@ class Renderer:
         f = self.unit.by_mangled.get(mangled)
         if f is None or mangled in cut:
             return False
-        if f.pretty.startswith('bloc::') or STD_RENDER_OK.match(f.pretty):
+        if f.pretty.startswith('bloc::') or f.pretty.startswith('bloc_') or STD_RENDER_OK.match(f.pretty):
             return True
         return False
 
